@@ -1,3 +1,482 @@
-/- C06 — property theorems (stub: the property is not claimed yet). -/
+/-
+  C06 — every search returns exactly the matching elements of its scope, once, in order.
+
+  Property theorems only.  Model: AHP/Model/Search.lean (the functions the driver executes);
+  specification functions (`Node.preorder`, `Node.desc`, `fil`, `dedupN`) and helper lemmas:
+  AHP/Lemmas/Search.lean.
+
+  Reading guide.  `n.Distinct` says the uids below `n` are pairwise distinct (uuid freshness + tree
+  shape: what "each element once" presupposes).  Scopes of the property text:
+    parser            `root.preorder`                       (`parserScope root none`)
+    parser, root=r    `r.desc` (or the whole document when `r` is the root)   (`parserScope root (some r)`)
+    element           `n.desc`                              strict descendants
+    collection        `dedupN [] (ms.flatMap Node.preorder)` members and descendants, discovery order
+  and every result is `fil pred scope` — the scope filtered by the documented predicate, order kept.
+-/
+import AHP.Lemmas.Search
+import AHP.Lemmas.ClassWords
 namespace AHP.C06
+open AHP
+
+/-! #### C06a — parser and element forms: the recursive scan is the filter of the scope -/
+
+/-- Generic parser form (`getElementsByTagName`, `ByAttr`, `CustomFilter` use the same test on the root
+    and below it). -/
+theorem parser_scan (p : Elem → Bool) (root : Node) (arg : Option Node)
+    (h : (scanRoot root arg).Distinct) :
+    (scanP p p (handleRootArg root arg).2 (handleRootArg root arg).1).items = fil p (parserScope root arg) := by
+  rcases handleRootArg_cases root arg with ⟨h1, h2⟩ | ⟨r, _, h1, h2⟩
+  · rw [h2]; simp only [scanRoot, h1] at h ⊢; exact scanP_root p h
+  · rw [h2]; simp only [scanRoot, h1] at h ⊢
+    rw [scanP_items p p false h]; simp
+
+theorem parser_scan_dot (a q : Str) (hq : q ≠ []) (root : Node) (arg : Option Node)
+    (h : (scanRoot root arg).Distinct) :
+    (scanP (pDot a q) (pAttr a q) (handleRootArg root arg).2 (handleRootArg root arg).1).items
+      = fil (pAttr a q) (parserScope root arg) := by
+  rcases handleRootArg_cases root arg with ⟨h1, h2⟩ | ⟨r, _, h1, h2⟩
+  · rw [h2]; simp only [scanRoot, h1] at h ⊢
+    rw [scanP_items _ _ true h, Node.preorder_eq, fil_cons, pDot_eq_pAttr a q hq]; simp
+  · rw [h2]; simp only [scanRoot, h1] at h ⊢
+    rw [scanP_items _ _ false h]; simp
+
+/-- `getElementsByTagName` — parser (with any `root=`) and element. -/
+theorem byTagName_parser (q : Str) (root : Node) (arg : Option Node) (h : (scanRoot root arg).Distinct) :
+    (byTagName q (.parser root arg)).items = fil (pTag q) (parserScope root arg) := parser_scan _ root arg h
+theorem byTagName_element (q : Str) {n : Node} (h : n.Distinct) :
+    (byTagName q (.element n)).items = fil (pTag q) n.desc := descScan_items _ n h
+
+/-- `getElementsByName` (searched value non-empty, as the property says). -/
+theorem byName_parser (q : Str) (hq : q ≠ []) (root : Node) (arg : Option Node) (h : (scanRoot root arg).Distinct) :
+    (byName q (.parser root arg)).items = fil (pAttr (str "name") q) (parserScope root arg) :=
+  parser_scan_dot _ q hq root arg h
+theorem byName_element (q : Str) {n : Node} (h : n.Distinct) :
+    (byName q (.element n)).items = fil (pAttr (str "name") q) n.desc := descScan_items _ n h
+
+/-- `getElementsByAttr`. -/
+theorem byAttr_parser (a v : Str) (root : Node) (arg : Option Node) (h : (scanRoot root arg).Distinct) :
+    (byAttr a v (.parser root arg)).items = fil (pAttr a v) (parserScope root arg) := parser_scan _ root arg h
+theorem byAttr_element (a v : Str) {n : Node} (h : n.Distinct) :
+    (byAttr a v (.element n)).items = fil (pAttr a v) n.desc := descScan_items _ n h
+
+/-- `getElementsCustomFilter`, for every predicate. -/
+theorem customFilter_parser (f : Elem → Bool) (root : Node) (arg : Option Node) (h : (scanRoot root arg).Distinct) :
+    (customFilter f (.parser root arg)).items = fil f (parserScope root arg) := parser_scan _ root arg h
+theorem customFilter_element (f : Elem → Bool) {n : Node} (h : n.Distinct) :
+    (customFilter f (.element n)).items = fil f n.desc := descScan_items _ n h
+
+/-- `getElementsWithAttrValues`: the parser form delegates to the element form and adds the root. -/
+theorem withAttrValues_parser (a : Str) (vs : List Str) (root : Node) (arg : Option Node)
+    (h : (scanRoot root arg).Distinct) :
+    (withAttrValues a vs (.parser root arg)).items = fil (pVals a vs) (parserScope root arg) := by
+  rcases handleRootArg_cases root arg with ⟨h1, h2⟩ | ⟨r, _, h1, h2⟩
+  · rw [h2]; simp only [scanRoot, h1] at h
+    simp only [withAttrValues, h1, Bool.true_and]
+    rw [Node.preorder_eq, fil_cons]
+    by_cases hp : pVals a vs root.elem
+    · simp only [hp, if_true]
+      have h1' : (TC.ofList [root]).items = [root] := TC.ofList_items_of_nodup (by simp [uidsOf])
+      simp only [TC.add, h1']
+      have hfresh : ((TC.ofList [root]).ids ++ uidsOf (descScan (pVals a vs) root).items).Nodup := by
+        simp only [TC.ids, h1', descScan_items _ root h]
+        have hs : (root :: fil (pVals a vs) root.desc).Sublist root.preorder := by
+          rw [Node.preorder_eq]; exact (fil_sublist _ _).cons_cons root
+        simpa [uidsOf] using uids_nodup_of_sublist hs h
+      rw [(TC.iadd_items_of_fresh (TC.ofList_spec [root]).1 hfresh).2, h1', descScan_items _ root h]
+    · simp only [hp, Bool.false_eq_true, if_false, List.nil_append]
+      exact descScan_items _ root h
+  · rw [h2]; simp only [scanRoot, h1] at h
+    simp only [withAttrValues, h1, Bool.false_and, Bool.false_eq_true, if_false]
+    exact descScan_items _ r h
+theorem withAttrValues_element (a : Str) (vs : List Str) {n : Node} (h : n.Distinct) :
+    (withAttrValues a vs (.element n)).items = fil (pVals a vs) n.desc := descScan_items _ n h
+
+/-- The single-result forms return the first match of the scope in document order, or nothing
+    (no hypothesis on ids is needed: the first match is the first match). -/
+theorem byId_parser (q : Str) (hq : q ≠ []) (root : Node) (arg : Option Node) :
+    byId q (.parser root arg) = (fil (pAttr (str "id") q) (parserScope root arg)).head? := by
+  rcases handleRootArg_cases root arg with ⟨h1, h2⟩ | ⟨r, _, h1, h2⟩
+  · rw [h2]; simp only [byId, h1]
+    rw [firstP_eq, Node.preorder_eq, fil_cons, pDot_eq_pAttr _ q hq]; simp
+  · rw [h2]; simp only [byId, h1]
+    rw [firstP_eq]; simp
+theorem byId_element (q : Str) (n : Node) :
+    byId q (.element n) = (fil (pAttr (str "id") q) n.desc).head? := descFirst_eq _ n
+
+theorem firstCustomFilter_parser (f : Elem → Bool) (root : Node) (arg : Option Node) :
+    firstCustomFilter f (.parser root arg) = some (fil f (parserScope root arg)).head? := by
+  rcases handleRootArg_cases root arg with ⟨h1, h2⟩ | ⟨r, _, h1, h2⟩
+  · rw [h2]; simp only [firstCustomFilter, h1]
+    rw [firstP_eq, Node.preorder_eq, fil_cons]; simp
+  · rw [h2]; simp only [firstCustomFilter, h1]
+    rw [firstP_eq]; simp
+theorem firstCustomFilter_element (f : Elem → Bool) (n : Node) :
+    firstCustomFilter f (.element n) = some (fil f n.desc).head? := by
+  simp [firstCustomFilter, descFirst_eq]
+
+/-- The single-result form agrees with the list form: it is the head of `getElementsCustomFilter`. -/
+theorem first_is_head_of_all (f : Elem → Bool) (root : Node) (arg : Option Node) (h : (scanRoot root arg).Distinct) :
+    firstCustomFilter f (.parser root arg) = some (customFilter f (.parser root arg)).items.head? := by
+  rw [firstCustomFilter_parser, customFilter_parser f root arg h]
+
+/-- "each element once": a filtered scope of a document with distinct ids has no repeated element. -/
+theorem result_nodup (p : Elem → Bool) {scope : List Node} (h : (uidsOf scope).Nodup) :
+    (uidsOf (fil p scope)).Nodup := uids_nodup_of_sublist (fil_sublist p scope) h
+
+theorem parserScope_nodup {root : Node} (h : root.Distinct) (arg : Option Node)
+    (ha : ∀ r, arg = some r → r ∈ root.preorder) : (uidsOf (parserScope root arg)).Nodup := by
+  cases arg with
+  | none => exact h
+  | some r =>
+    simp only [parserScope]
+    split
+    · exact h
+    · exact Node.Distinct.desc (distinct_of_mem h r (ha r rfl))
+
+/-! #### C06e — class queries -/
+
+/-- "carries all of them": only the *set* of requested names matters — order and multiplicity are
+    irrelevant. -/
+theorem allClasses_set (ns ms : List Str) (h : ∀ x, x ∈ ns ↔ x ∈ ms) (e : Elem) :
+    pAllClasses ns e = pAllClasses ms e := by
+  simp only [pAllClasses]
+  rw [Bool.eq_iff_iff]
+  simp only [List.all_eq_true]
+  exact ⟨fun a x hx => a x ((h x).mpr hx), fun a x hx => a x ((h x).mp hx)⟩
+
+theorem allClasses_perm {ns ms : List Str} (h : ns.Perm ms) (e : Elem) : pAllClasses ns e = pAllClasses ms e :=
+  allClasses_set ns ms (fun _ => h.mem_iff) e
+
+theorem allClasses_dup (c : Str) (ns : List Str) (e : Elem) : pAllClasses (c :: c :: ns) e = pAllClasses (c :: ns) e :=
+  allClasses_set _ _ (by intro x; simp) e
+
+/-- `getElementsByClassName` with the names `c :: rest` (what `classWords` made of the query string):
+    exactly the elements of the scope carrying all of them. -/
+theorem byClassName_parser (q c : Str) (rest : List Str) (hw : classWords q = c :: rest)
+    (root : Node) (arg : Option Node) (h : (scanRoot root arg).Distinct) :
+    ∃ r, byClassName q (.parser root arg) = some r ∧
+      r.items = fil (pAllClasses (c :: rest)) (parserScope root arg) := by
+  rcases handleRootArg_cases root arg with ⟨h1, h2⟩ | ⟨r, _, h1, h2⟩
+  · rw [h2]; simp only [scanRoot, h1] at h
+    refine ⟨_, by simp only [byClassName, h1, hw]; rfl, ?_⟩
+    have hk := Node.Distinct.desc h
+    simp only [Bool.true_and]
+    rw [show descScanL (pClass c) root.kids = fil (pClass c) root.desc from descScanL_eq _ _ hk]
+    have e1 : (if pClass c root.elem = true then [root] else []) ++ fil (pClass c) root.desc
+        = fil (pClass c) root.preorder := by rw [Node.preorder_eq, fil_cons]
+    rw [e1, first_then_rest]
+    exact TC.ofList_items_of_nodup (uids_nodup_of_sublist (fil_sublist _ _) h)
+  · rw [h2]; simp only [scanRoot, h1] at h
+    refine ⟨_, by simp only [byClassName, h1, hw]; rfl, ?_⟩
+    have hk := Node.Distinct.desc h
+    simp only [Bool.false_and, Bool.false_eq_true, if_false, List.nil_append]
+    rw [show descScanL (pClass c) r.kids = fil (pClass c) r.desc from descScanL_eq _ _ hk, first_then_rest]
+    exact TC.ofList_items_of_nodup (uids_nodup_of_sublist (fil_sublist _ _) hk)
+
+theorem byClassName_element (q c : Str) (rest : List Str) (hw : classWords q = c :: rest)
+    {n : Node} (h : n.Distinct) :
+    ∃ r, byClassName q (.element n) = some r ∧ r.items = fil (pAllClasses (c :: rest)) n.desc := by
+  refine ⟨_, by simp only [byClassName, hw]; rfl, ?_⟩
+  have hk := Node.Distinct.desc h
+  rw [show descScanL (pClass c) n.kids = fil (pClass c) n.desc from descScanL_eq _ _ hk, first_then_rest]
+  exact TC.ofList_items_of_nodup (uids_nodup_of_sublist (fil_sublist _ _) hk)
+
+/-- The collection form compiles one test; with one name it reads the stripped query, which is that name. -/
+theorem byClassName_coll (q : Str) (ws : List Str) (hw : classWords q = ws) (h1 : ws.length ≤ 1 → ws = [strip q])
+    (ms : List Node) :
+    ∃ r, byClassName q (.coll ms) = some r ∧
+      r.items = dedupN [] (fil (pAllClasses ws) (ms.flatMap Node.preorder)) := by
+  refine ⟨_, rfl, ?_⟩
+  simp only [hw]
+  rw [collScan_eq, (TC.ofList_spec _).2]
+  congr 1
+  apply fil_congr
+  intro n _
+  split
+  · rename_i hl
+    rw [h1 hl]; simp [pAllClasses, pClass]
+  · rfl
+
+/-- C06e on query strings: class names (non-empty, free of white space) joined by single spaces. The parser
+    form returns exactly the elements of the scope that carry all of them. -/
+theorem byClassName_query_parser (names : List Str) (hne : names ≠ []) (hw : ∀ n ∈ names, Word n)
+    (root : Node) (arg : Option Node) (h : (scanRoot root arg).Distinct) :
+    ∃ r, byClassName (joinWith [' '] names) (.parser root arg) = some r ∧
+      r.items = fil (pAllClasses names) (parserScope root arg) := by
+  cases names with
+  | nil => exact absurd rfl hne
+  | cons c rest => exact byClassName_parser _ c rest (classWords_join _ hne hw) root arg h
+
+theorem byClassName_query_element (names : List Str) (hne : names ≠ []) (hw : ∀ n ∈ names, Word n)
+    {n : Node} (h : n.Distinct) :
+    ∃ r, byClassName (joinWith [' '] names) (.element n) = some r ∧ r.items = fil (pAllClasses names) n.desc := by
+  cases names with
+  | nil => exact absurd rfl hne
+  | cons c rest => exact byClassName_element _ c rest (classWords_join _ hne hw) h
+
+theorem byClassName_query_coll (names : List Str) (hne : names ≠ []) (hw : ∀ n ∈ names, Word n) (ms : List Node) :
+    ∃ r, byClassName (joinWith [' '] names) (.coll ms) = some r ∧
+      r.items = dedupN [] (fil (pAllClasses names) (ms.flatMap Node.preorder)) := by
+  apply byClassName_coll _ names (classWords_join _ hne hw)
+  intro hl
+  cases names with
+  | nil => exact absurd rfl hne
+  | cons c rest =>
+    have : rest = [] := by
+      cases rest with
+      | nil => rfl
+      | cons _ _ => simp at hl
+    subst this
+    have hj : joinWith [' '] [c] = c := by unfold joinWith; rfl
+    rw [hj, strip_word (hw c (by simp))]
+
+/-- "whatever the order or number of names": two queries naming the same set of classes — permuted, with
+    repetitions — have the same answer, on every document and from every `root=`. -/
+theorem class_query_order_multiplicity_irrelevant (ns ms : List Str) (hn : ns ≠ []) (hm : ms ≠ [])
+    (hwn : ∀ n ∈ ns, Word n) (hwm : ∀ n ∈ ms, Word n) (hset : ∀ x, x ∈ ns ↔ x ∈ ms)
+    (root : Node) (arg : Option Node) (h : (scanRoot root arg).Distinct) :
+    (byClassName (joinWith [' '] ns) (.parser root arg)).map TC.items
+      = (byClassName (joinWith [' '] ms) (.parser root arg)).map TC.items := by
+  obtain ⟨r1, h1, e1⟩ := byClassName_query_parser ns hn hwn root arg h
+  obtain ⟨r2, h2, e2⟩ := byClassName_query_parser ms hm hwm root arg h
+  rw [h1, h2, Option.map_some, Option.map_some, e1, e2]
+  congr 1
+  exact fil_congr (fun n _ => allClasses_set ns ms hset n.elem)
+
+/-! #### C06b — collection forms: members and descendants, discovery order, de-duplicated -/
+
+/-- The scope of a collection-level search. -/
+def collScope (ms : List Node) : List Node := ms.flatMap Node.preorder
+
+/-- Every `_subset`-based collection search: the matching elements of "members and their descendants",
+    walking the members in sequence, each element (uid) once — first discovery wins. -/
+theorem coll_scan (cmp : Elem → Bool) (ms : List Node) :
+    (collScan cmp ms).items = dedupN [] (fil cmp (collScope ms)) ∧
+    (collScan cmp ms).ids.Nodup ∧
+    (∀ u, u ∈ (collScan cmp ms).ids ↔ u ∈ uidsOf (fil cmp (collScope ms))) := by
+  rw [collScan_eq]
+  have hs := TC.ofList_spec (fil cmp (ms.flatMap Node.preorder))
+  refine ⟨hs.2, TC.ids_nodup hs.1, ?_⟩
+  intro u
+  simp only [TC.ids, hs.2]
+  rw [show List.map Node.uid (dedupN [] (fil cmp (ms.flatMap Node.preorder)))
+        = uidsOf (dedupN [] (fil cmp (ms.flatMap Node.preorder))) from rfl, mem_dedupN_uid]
+  simp [collScope]
+
+theorem byTagName_coll (q : Str) (ms : List Node) :
+    (byTagName q (.coll ms)).items = dedupN [] (fil (pTag (lower q)) (collScope ms)) := (coll_scan _ ms).1
+theorem byName_coll (q : Str) (hq : q ≠ []) (ms : List Node) :
+    (byName q (.coll ms)).items = dedupN [] (fil (pAttr (str "name") q) (collScope ms)) := by
+  rw [show byName q (.coll ms) = collScan (pDot (str "name") q) ms from rfl, (coll_scan _ ms).1]
+  congr 1
+  exact fil_congr (fun n _ => pDot_eq_pAttr _ q hq n.elem)
+theorem byAttr_coll (a v : Str) (ms : List Node) :
+    (byAttr a v (.coll ms)).items = dedupN [] (fil (pAttr (lower a) v) (collScope ms)) := (coll_scan _ ms).1
+theorem withAttrValues_coll (a : Str) (vs : List Str) (ms : List Node) :
+    (withAttrValues a vs (.coll ms)).items = dedupN [] (fil (pVals (lower a) vs) (collScope ms)) := (coll_scan _ ms).1
+theorem customFilter_coll (f : Elem → Bool) (ms : List Node) :
+    (customFilter f (.coll ms)).items = dedupN [] (fil f (collScope ms)) := (coll_scan _ ms).1
+
+/-- When the members are pairwise disjoint subtrees with distinct ids nothing is dropped. -/
+theorem coll_scan_disjoint (cmp : Elem → Bool) (ms : List Node) (h : (uidsOf (collScope ms)).Nodup) :
+    (collScan cmp ms).items = fil cmp (collScope ms) := by
+  rw [(coll_scan cmp ms).1]
+  exact dedupN_of_nodup (uids_nodup_of_sublist (fil_sublist _ _) h) (by simp)
+
+/-- `TagCollection.getElementById`: the first match walking each member and then its descendants. -/
+theorem byId_coll (q : Str) (hq : q ≠ []) (ms : List Node) :
+    byId q (.coll ms) = (fil (pAttr (str "id") q) (collScope ms)).head? := by
+  simp only [byId, collFirst_eq, collScope]
+  congr 1
+  induction ms with
+  | nil => rfl
+  | cons m ms ih =>
+    simp only [List.flatMap_cons, fil_append, ih]
+    congr 1
+    rw [Node.preorder_eq, fil_cons, pDot_eq_pAttr _ q hq]
+
+/-! #### C06c — `find` -/
+
+/-- `find(**kwargs)` with at least one keyword: the document filtered by the conjunction of the
+    compiled keywords; `tagname__contains` is the only raising combination. -/
+theorem find_spec (root : Node) (h : root.Distinct) (kwargs : List (Str × FVal)) (hne : kwargs ≠ [])
+    (fs : List (Elem → Bool)) (hc : compileAll kwargs = some fs) :
+    ∃ r, find root kwargs = some r ∧ r.items = fil (fun e => fs.all (· e)) root.preorder := by
+  have : kwargs.isEmpty = false := by cases kwargs <;> simp_all
+  refine ⟨_, by simp only [find, this, hc]; rfl, scanP_root _ h⟩
+
+theorem find_empty (root : Node) : (find root []).map TC.items = some [] := rfl
+
+/-- `compileAll` compiles keyword by keyword and fails only where `compileFind` does. -/
+theorem compileAll_cons (k : Str) (v : FVal) (rest : List (Str × FVal)) (f : Elem → Bool) (fs : List (Elem → Bool))
+    (h1 : compileFind k v = some f) (h2 : compileAll rest = some fs) :
+    compileAll ((k, v) :: rest) = some (f :: fs) := by simp [compileAll, h1, h2]
+
+/-- What the keywords mean (keys are lower-cased first; shown for lower-case keys without a suffix). -/
+theorem compile_plain_one (key v : Str) (hl : lower key = key)
+    (h1 : endsWith (str "__icontains") key = false) (h2 : endsWith (str "__contains") key = false)
+    (ht : key ≠ str "tagname") (hx : key ≠ str "text") :
+    ∃ f, compileFind key (.one v) = some f ∧ ∀ e, f e = (e.attrOr key [] == v) := by
+  refine ⟨_, by simp only [compileFind, hl, h1, h2]; rfl, ?_⟩
+  intro e; simp [ht, hx]
+
+theorem compile_plain_many (key : Str) (vs : List Str) (hl : lower key = key)
+    (h1 : endsWith (str "__icontains") key = false) (h2 : endsWith (str "__contains") key = false)
+    (ht : key ≠ str "tagname") (hx : key ≠ str "text") :
+    ∃ f, compileFind key (.many vs) = some f ∧ ∀ e, f e = vs.contains (e.attrOr key []) := by
+  refine ⟨_, by simp only [compileFind, hl, h1, h2]; rfl, ?_⟩
+  intro e; simp [ht, hx]
+
+theorem compile_tagname (v : Str) :
+    ∃ f, compileFind (str "tagname") (.one v) = some f ∧ ∀ e, f e = (e.tag == v) :=
+  ⟨_, rfl, fun _ => rfl⟩
+theorem compile_tagname_many (vs : List Str) :
+    ∃ f, compileFind (str "tagname") (.many vs) = some f ∧ ∀ e, f e = vs.contains e.tag :=
+  ⟨_, rfl, fun _ => rfl⟩
+theorem compile_text (v : Str) :
+    ∃ f, compileFind (str "text") (.one v) = some f ∧ ∀ e, f e = (e.text == v) :=
+  ⟨_, rfl, fun _ => rfl⟩
+theorem compile_text_contains (v : Str) :
+    ∃ f, compileFind (str "text__contains") (.one v) = some f ∧ ∀ e, f e = isSub v e.text :=
+  ⟨_, rfl, fun _ => rfl⟩
+theorem compile_text_icontains_many (vs : List Str) :
+    ∃ f, compileFind (str "text__icontains") (.many vs) = some f ∧
+      ∀ e, f e = (vs.map lower).any (fun v => isSub v (lower e.text)) :=
+  ⟨_, rfl, fun _ => rfl⟩
+theorem compile_attr_contains_many (vs : List Str) :
+    ∃ f, compileFind (str "title__contains") (.many vs) = some f ∧
+      ∀ e, f e = vs.any (fun v => isSub v (e.attrOr (str "title") [])) := by
+  refine ⟨_, rfl, fun e => ?_⟩
+  show List.any (List.map id vs) (fun v => isSub v (id (e.attrOr (str "title") []))) = _
+  simp
+theorem compile_tagname_contains_raises (v : FVal) : compileFind (str "tagname__contains") v = none := rfl
+theorem compile_key_case (v : FVal) : compileFind (str "TagName") v = compileFind (str "tagname") v := rfl
+
+/-- `isSub` is Python's substring test. -/
+theorem isSub_iff (needle hay : Str) : isSub needle hay = true ↔ ∃ a b, hay = a ++ needle ++ b := by
+  induction hay with
+  | nil =>
+    simp only [isSub, List.isEmpty_iff]
+    constructor
+    · intro h; exact ⟨[], [], by simp [h]⟩
+    · rintro ⟨a, b, h⟩
+      have := congrArg List.length h
+      simp at this
+      exact List.eq_nil_of_length_eq_zero (by omega)
+  | cons c cs ih =>
+    simp only [isSub, Bool.or_eq_true, ih]
+    constructor
+    · rintro (h | ⟨a, b, h⟩)
+      · obtain ⟨t, ht⟩ := List.isPrefixOf_iff_prefix.mp h
+        exact ⟨[], t, by simp [ht]⟩
+      · exact ⟨c :: a, b, by simp [h]⟩
+    · rintro ⟨a, b, h⟩
+      cases a with
+      | nil =>
+        left
+        exact List.isPrefixOf_iff_prefix.mpr ⟨b, by simpa using h.symm⟩
+      | cons a0 as =>
+        right
+        simp only [List.cons_append, List.cons.injEq] at h
+        exact ⟨as, b, h.2⟩
+
+/-! #### C06d — `filter` family: the documented scope filtered by the QueryableList criteria -/
+
+/-- parser.filter / filterAnd and filterOr: the whole document. -/
+theorem filter_parser_and (cs : List Crit) {root : Node} (h : root.Distinct) (hw : root.elem.tag ≠ wrapperTag) (arg : Option Node) :
+    (filterQ .and_ cs (.parser root arg)).map TC.items
+      = some (fil (fun e => cs.all (Crit.holds e)) root.preorder) := by
+  simp only [filterQ, Option.map_some, qlAnd, (parserAllNodes_spec h hw).2]
+  congr 1
+  exact TC.ofList_items_of_nodup (uids_nodup_of_sublist List.filter_sublist h)
+theorem filter_parser_or (cs : List Crit) {root : Node} (h : root.Distinct) (hw : root.elem.tag ≠ wrapperTag) (arg : Option Node) :
+    (filterQ .or_ cs (.parser root arg)).map TC.items
+      = some (fil (fun e => cs.any (Crit.holds e)) root.preorder) := by
+  simp only [filterQ, Option.map_some, qlOr, (parserAllNodes_spec h hw).2]
+  congr 1
+  exact TC.ofList_items_of_nodup (uids_nodup_of_sublist List.filter_sublist h)
+
+/-- … and for a document with several roots: every element but the invisible wrapper. -/
+theorem filter_parser_several_roots (cs : List Crit) {root : Node} (h : root.Distinct) (hw : root.elem.tag = wrapperTag)
+    (arg : Option Node) :
+    (filterQ .and_ cs (.parser root arg)).map TC.items = some (fil (fun e => cs.all (Crit.holds e)) root.desc) ∧
+    (filterQ .or_ cs (.parser root arg)).map TC.items = some (fil (fun e => cs.any (Crit.holds e)) root.desc) := by
+  have hn := Node.Distinct.desc h
+  constructor
+  · simp only [filterQ, Option.map_some, qlAnd, (parserAllNodes_wrapper h hw).2]
+    congr 1
+    exact TC.ofList_items_of_nodup (uids_nodup_of_sublist List.filter_sublist hn)
+  · simp only [filterQ, Option.map_some, qlOr, (parserAllNodes_wrapper h hw).2]
+    congr 1
+    exact TC.ofList_items_of_nodup (uids_nodup_of_sublist List.filter_sublist hn)
+
+/-- element.filter / filterOr: the element itself and its descendants (as its docstring says). -/
+theorem filter_element_and (cs : List Crit) {n : Node} (h : n.Distinct) :
+    (filterQ .and_ cs (.element n)).map TC.items = some (fil (fun e => cs.all (Crit.holds e)) n.preorder) := by
+  simp only [filterQ, Option.map_some, qlAnd, (elemAllNodes_spec h).2]
+  congr 1
+  exact TC.ofList_items_of_nodup (uids_nodup_of_sublist List.filter_sublist h)
+theorem filter_element_or (cs : List Crit) {n : Node} (h : n.Distinct) :
+    (filterQ .or_ cs (.element n)).map TC.items = some (fil (fun e => cs.any (Crit.holds e)) n.preorder) := by
+  simp only [filterQ, Option.map_some, qlOr, (elemAllNodes_spec h).2]
+  congr 1
+  exact TC.ofList_items_of_nodup (uids_nodup_of_sublist List.filter_sublist h)
+
+/-- collection.filterAll / filterAllAnd / filterAllOr: members and descendants in discovery order. -/
+theorem filter_coll_all (cs : List Crit) {ms : List Node} (h : ∀ m ∈ ms, m.Distinct) :
+    (filterQ .allAnd cs (.coll ms)).map TC.items
+      = some (fil (fun e => cs.all (Crit.holds e)) (dedupN [] (collScope ms))) ∧
+    (filterQ .allOr cs (.coll ms)).map TC.items
+      = some (fil (fun e => cs.any (Crit.holds e)) (dedupN [] (collScope ms))) := by
+  have hs := TC.ofList_spec (ms.flatMap Node.preorder)
+  have hn : (uidsOf (dedupN [] (ms.flatMap Node.preorder))).Nodup := nodup_dedupN _ _
+  constructor
+  · simp only [filterQ, Option.map_some, qlAnd, collAllNodes_eq h, hs.2, collScope]
+    congr 1
+    exact TC.ofList_items_of_nodup (uids_nodup_of_sublist List.filter_sublist hn)
+  · simp only [filterQ, Option.map_some, qlOr, collAllNodes_eq h, hs.2, collScope]
+    congr 1
+    exact TC.ofList_items_of_nodup (uids_nodup_of_sublist List.filter_sublist hn)
+
+/-- collection.filter / filterAnd / filterOr: the members only. -/
+theorem filter_coll_members (cs : List Crit) {ms : List Node} (h : (uidsOf ms).Nodup) :
+    (filterQ .and_ cs (.coll ms)).map TC.items = some (fil (fun e => cs.all (Crit.holds e)) ms) ∧
+    (filterQ .or_ cs (.coll ms)).map TC.items = some (fil (fun e => cs.any (Crit.holds e)) ms) := by
+  constructor
+  · simp only [filterQ, Option.map_some, qlAnd]
+    congr 1
+    exact TC.ofList_items_of_nodup (uids_nodup_of_sublist List.filter_sublist h)
+  · simp only [filterQ, Option.map_some, qlOr]
+    congr 1
+    exact TC.ofList_items_of_nodup (uids_nodup_of_sublist List.filter_sublist h)
+
+/-- No criterion: `filterAnd` keeps everything, `filterOr` nothing. -/
+theorem filter_no_criteria (e : Elem) : ([] : List Crit).all (Crit.holds e) = true ∧ ([] : List Crit).any (Crit.holds e) = false := by
+  simp
+
+/-- The criteria on a missing attribute (`None`): only `ne` holds. -/
+theorem crit_missing (e : Elem) (f v : Str) (vs : List Str) (h : fieldValue e f = none) :
+    Crit.holds e (.eq f v) = false ∧ Crit.holds e (.ne f v) = true ∧ Crit.holds e (.contains f v) = false ∧
+    Crit.holds e (.icontains f v) = false ∧ Crit.holds e (.isin f vs) = false := by
+  simp [Crit.holds, h, optIn]
+
+/-! #### Table obligation (tie to constants.py through the translator) -/
+theorem wrapper_tag_is_xxxblank : Gen.invisibleRootTag = "xxxblank" := by decide
+
+/-! #### Non-vacuity -/
+section Examples
+def eA : Elem := ⟨0, str "div", [(str "id", str "r")], [str "a", str "b", str "c"], []⟩
+def eB : Elem := ⟨1, str "p", [(str "name", str "n")], [str "a", str "b"], str "hi"⟩
+def eC : Elem := ⟨2, str "p", [], [str "c", str "a", str "b"], []⟩
+def docX : Node := .mk eA [.mk eB [.mk eC []]]
+
+example : docX.Distinct := by unfold Node.Distinct; decide
+example : (byTagName (str "p") (.parser docX none)).ids = [1, 2] := by decide
+example : ((byClassName (str "a  b c") (.parser docX none)).map TC.ids) = some [0, 2] := by decide
+example : classWords (str " a  b c ") = [str "a", str "b", str "c"] := by decide
+example : (byTagName (str "p") (.coll [.mk eC [], docX])).ids = [2, 1] := by decide
+example : (find docX [(str "tagname", .one (str "p")), (str "name__contains", .many [str "n", str "q"])]).map TC.ids = some [1] := by
+  decide
+end Examples
+
 end AHP.C06
